@@ -11,6 +11,9 @@ import RV.Base.Proto
     modify W nd q… ni q… nu g… nn g… nw q… F [v ne c]           (nd, ni: 0 = clause absent, else count+1)
     clear|drop S DEFAULT|NAMED|ALL|GRAPH g
     add|move|copy S src dst                          -> ok | error | skipped   (skipped = request already failed)
+    tabrel b r n | tabns b r ns | tabpn ns l n        -> ok   (what written names denote; harness-owned)
+    base b | prefix p ns | prefixrel p r               -> ok   (declarations before the next operation)
+    (inside operations an IRI may be written  @r.<ref>  or  @p.<prefix>.<local>: resolved with the prologue in force)
     err    -> ok | error
     quads  -> s,p,o,g …   (minted blank nodes 1000+k)
     known  -> g,g,…
@@ -20,6 +23,8 @@ open RV RV.C10 RV.Proto
 structure DSt where
   cfg : Cfg
   run : Run
+  pro : Prologue
+  tab : Tables
 
 def dataTerm? (n : Nat) : Option Term :=
   if n = 0 then none
@@ -175,11 +180,30 @@ def showQuads (qs : List Quad) : String :=
   " ".intercalate ((sortBy lexLt ls).map showNats)
 
 def emptySt : St := ⟨[], [], 0⟩
+def emptyPro : Prologue := ⟨none, []⟩
+def emptyTab : Tables := ⟨[], [], []⟩
+
+/-- `@r.<ref>` = relative reference, `@p.<prefix>.<local>` = prefixed name; anything else is passed on -/
+def spelled? (w : String) : Option (Option Spelled) :=
+  match w.splitOn "." with
+  | ["@r", r] => r.toNat?.map (fun r => some (.rel r))
+  | ["@p", a, b] => do let a ← a.toNat?; let b ← b.toNat?; pure (some (.pname a b))
+  | _ => if w.startsWith "@" then none else some none
+
+def resolveTok (T : Tables) (p : Prologue) (w : String) : Option String :=
+  match spelled? w with
+  | none => none
+  | some none => some w
+  | some (some sp) => (p.resolve T sp).map toString
+
+def triple? (a b c : String) : Option ((Nat × Nat) × Nat) := do
+  let a ← a.toNat?; let b ← b.toNat?; let c ← c.toNat?
+  pure ((a, b), c)
 
 def step (d : DSt) : List String → DSt × String
   | ["reset", a, u] =>
     match api? a, bool? u with
-    | some a, some u => (⟨⟨a, u⟩, ⟨emptySt, false⟩⟩, "ok")
+    | some a, some u => (⟨⟨a, u⟩, ⟨emptySt, false⟩, emptyPro, emptyTab⟩, "ok")
     | _, _ => (d, "bad-op")
   | ["init", s, p, o, g] =>
     match (do
@@ -192,16 +216,42 @@ def step (d : DSt) : List String → DSt × String
     match g.toNat?.bind gName? with
     | some (some n) => ({ d with run := { d.run with st := { d.run.st with known := sinsert d.run.st.known n } } }, "ok")
     | _ => (d, "bad-op")
+  | ["tabrel", a, b, c] =>
+    match triple? a b c with
+    | some e => ({ d with tab := { d.tab with rel := e :: d.tab.rel } }, "ok")
+    | none => (d, "bad-op")
+  | ["tabns", a, b, c] =>
+    match triple? a b c with
+    | some e => ({ d with tab := { d.tab with ns := e :: d.tab.ns } }, "ok")
+    | none => (d, "bad-op")
+  | ["tabpn", a, b, c] =>
+    match triple? a b c with
+    | some e => ({ d with tab := { d.tab with pn := e :: d.tab.pn } }, "ok")
+    | none => (d, "bad-op")
+  | ["base", b] =>
+    match b.toNat? with
+    | some b => ({ d with pro := d.pro.declare d.tab (.base b) }, "ok")
+    | none => (d, "bad-op")
+  | ["prefix", x, ns] =>
+    match x.toNat?, ns.toNat? with
+    | some x, some ns => ({ d with pro := d.pro.declare d.tab (.prefix x ns) }, "ok")
+    | _, _ => (d, "bad-op")
+  | ["prefixrel", x, r] =>
+    match x.toNat?, r.toNat? with
+    | some x, some r => ({ d with pro := d.pro.declare d.tab (.prefixRel x r) }, "ok")
+    | _, _ => (d, "bad-op")
   | ["err"] => (d, if d.run.failed then "error" else "ok")
   | ["quads"] => (d, showQuads d.run.st.quads)
   | ["known"] => (d, ",".intercalate ((sortBy (fun a b => decide (a < b)) d.run.st.known).map toString))
   | ws =>
-    match parseOp ws with
+    -- an operation: its IRIs are resolved against the prologue in force, then `PRun.step` runs it
+    let mk : Prologue → Option Op := fun pro => (ws.mapM (resolveTok d.tab pro)).bind parseOp
+    match mk d.pro with
     | none => (d, "bad-op")
-    | some op =>
+    | some _ =>
       if d.run.failed then (d, "skipped")
       else
-        let r := d.run.step d.cfg op
-        ({ d with run := r }, if r.failed then "error" else "ok")
+        let r := PRun.step d.cfg d.tab ⟨d.run, d.pro⟩ ([], mk)
+        ({ d with run := r.run, pro := r.pro }, if r.run.failed then "error" else "ok")
 
-def main : IO Unit := RV.Proto.run step (⟨⟨.graph, false⟩, ⟨emptySt, false⟩⟩ : DSt)
+def main : IO Unit := RV.Proto.run step (⟨⟨.graph, false⟩, ⟨emptySt, false⟩, emptyPro, emptyTab⟩ : DSt)
